@@ -62,7 +62,7 @@ std::string Plan::to_text() const {
 	for (size_t t = 0; t < tasks.size(); ++t) {
 		auto &k = tasks[t];
 		o << "task kind=" << k.kind << " policy=" << k.policy << " trunc=" << k.trunc << " errat=" << k.errat
-		  << " skipfail=" << k.skipfail << " seekerr=" << k.seekerr << " skippast=" << k.skippast
+		  << " skipfail=" << k.skipfail << " seekerr=" << k.seekerr << " skippast=" << k.skippast << (k.endless ? " endless=1" : "")
 		  << " dir=" << hx(k.dir) << "\n";
 		for (auto &op : k.ops)
 			o << "op " << t << " " << op.kind << " arg=" << op.arg << " name=" << hx(op.name)
@@ -210,6 +210,7 @@ bool Plan::from_text(const std::string &text, Plan &p, std::string &err) {
 			t.skipfail = ki(kv, "skipfail", -1);
 			t.seekerr = (int) ki(kv, "seekerr", 0);
 			t.skippast = (int) ki(kv, "skippast", 0);
+			t.endless = (int) ki(kv, "endless", 0);
 			t.dir = kh(kv, "dir");
 			p.tasks.push_back(t);
 		} else if (k == "op") {
